@@ -21,7 +21,7 @@ pub struct Frame {
     pub suffix: &'static str,
 }
 
-pub const FRAMES: [Frame; 14] = [
+pub const FRAMES: [Frame; 16] = [
     Frame { name: "F0-file", prefix: "", suffix: "" },
     Frame { name: "F1-before-package", prefix: "", suffix: "package p ; interface I { }" },
     Frame { name: "F2-header", prefix: "package p ;", suffix: "interface I { }" },
@@ -36,6 +36,8 @@ pub const FRAMES: [Frame; 14] = [
     Frame { name: "F11-after-params", prefix: "package p ; interface I { void f ( )", suffix: "; }" },
     Frame { name: "F12-annotation-params", prefix: "package p ; @A (", suffix: ") interface I { }" },
     Frame { name: "F13-enum-value", prefix: "package p ; enum E { A =", suffix: ", }" },
+    Frame { name: "F14-map-arguments", prefix: "package p ; parcelable P { Map < String , String", suffix: "> x ; }" },
+    Frame { name: "F15-list-argument", prefix: "package p ; interface I { void f ( in List < String", suffix: "> l ) ; }" },
 ];
 
 fn join3(a: &str, b: &str, c: &str) -> String {
@@ -245,7 +247,7 @@ pub const ATOMS_VALUE: &[&str] = &[
 pub const ATOMS_MEMBER: &[&str] = &[
     "a", "1", "_", ".", "-", "f", "\"", "@", "/", "*", "=", ";", " ", "\n", "int", "(", ")", "é",
 ];
-pub const ATOMS_COMMENT: &[&str] = &["/*", "*/", "**/", "/**", "*", "/", "x", " ", "\n", "//"];
+pub const ATOMS_COMMENT: &[&str] = &["/*", "*/", "**/", "/**", "*", "/", "x", " ", "\n", "//", "\r"];
 pub const ATOMS_C01_FILE: &[&str] = &[
     "a", "1", ".", "-", "+", "\"", "@", "/", "*", "=", ";", "{", " ", "\n", "\r", "é", "日",
     "😀", "e\u{301}", "\u{a0}", "\u{2028}", "\u{feff}",
@@ -391,6 +393,18 @@ pub fn lexeme_variants() -> Space {
         ("float-forms", "package p; parcelable P { float a = 1.5; float b = .5; float c = -.5f; float d = +1; float e = 1f; }".into()),
         ("float-bad", "package p; parcelable P { float a = 1.; }".into()),
         ("plus-alone", "package p; parcelable P { float a = +; }".into()),
+        ("long-string-after-annotation", "package p; @A \"a very long string literal, longer than fifty characters for sure\" interface I { }".into()),
+        ("long-number-at-member-start", "package p; interface I { 123456789012345678901234567890123456789012345678901234567890 void f(); }".into()),
+        ("long-identifier-in-argument", "package p; interface I { void f(int a_very_long_identifier_name_that_goes_on_and_on_and_on_for_ever = 3); }".into()),
+        ("long-string-in-enum", "package p; enum E { A, \"a very long string literal, longer than fifty characters for sure\", B }".into()),
+        ("long-annotation-after-annotation", "package p; parcelable P { @A @B_with_a_rather_long_annotation_name_to_make_the_message_long = int x; }".into()),
+        ("comment-ended-by-cr", "package p; parcelable P { } // end\r".into()),
+        ("comment-ended-by-cr-then-code", "package p; // c\rparcelable P { }".into()),
+        ("map-three-parameters", "package p; parcelable P { Map<String, String, String> m; }".into()),
+        ("map-one-parameter", "package p; parcelable P { Map<String> m; }".into()),
+        ("list-two-parameters", "package p; parcelable P { List<String, String> m; }".into()),
+        ("nested-generic-close", "package p; parcelable P { Map<String, List<List<String>>> m; }".into()),
+        ("string-ending-in-backslash-twice", "package p; parcelable P { String a = \"C:\\\"; String b = \"D:\\\"; }".into()),
         ("minus-alone", "package p; parcelable P { float a = -; }".into()),
     ];
     let n = texts.len();
